@@ -26,7 +26,7 @@ type c09Params struct {
 var c09Waits = [][2]int{{1, 1}, {1, 8}, {2, 16}, {4, 4}, {8, 2}, {3, 5}}
 
 func c09Gen(tier string, seed int64) []fw.Case {
-	n := scale(tier, 14, 400)
+	n := scale(tier, 14, 2500)
 	var cs []fw.Case
 	for i, w := range c09Waits {
 		for part := 0; part < 3; part++ {
@@ -34,7 +34,7 @@ func c09Gen(tier string, seed int64) []fw.Case {
 		}
 	}
 	for i := 0; i < 8; i++ {
-		cs = append(cs, fw.Mk(fmt.Sprintf("stop/%d", i), c09Params{Mode: "stop", N: scale(tier, 3, 60), Part: i}))
+		cs = append(cs, fw.Mk(fmt.Sprintf("stop/%d", i), c09Params{Mode: "stop", N: scale(tier, 3, 300), Part: i}))
 	}
 	return cs
 }
